@@ -14,3 +14,5 @@ def run(out, sc, tier, seed):
               ["MaxLen = %d" % (3 if tier == "quick" else 4)], label="MC_Human")
     out.exhaustive = True
     run_progs(out, sc, "C18", {"gen": "human", "seed": seed, "n": 10000 if tier == "quick" else 80000}, "human", shard_size=2500)
+    from .common import run_witnesses
+    run_witnesses(out, sc, "C18")
